@@ -40,16 +40,17 @@ finish:
 int redirect_init(pipe_type *parent,
                   handle_type *child,
                   REPROC_STREAM stream,
-                  reproc_redirect redirect,
+                  reproc_redirect *redirect,
                   bool nonblocking,
                   handle_type out)
 {
   ASSERT(parent);
   ASSERT(child);
+  ASSERT(redirect);
 
   int r = REPROC_EINVAL;
 
-  switch (redirect.type) {
+  switch (redirect->type) {
 
     case REPROC_REDIRECT_DEFAULT:
       ASSERT(false);
@@ -62,8 +63,13 @@ int redirect_init(pipe_type *parent,
     case REPROC_REDIRECT_PARENT:
       r = redirect_parent(child, stream);
       if (r == REPROC_EPIPE) {
-        // Discard if the corresponding parent stream is closed.
+        // Discard if the corresponding parent stream is closed. We opened the
+        // child handle ourselves in this case so make sure it is destroyed
+        // as a discard redirect.
         r = redirect_discard(child, stream);
+        if (r >= 0) {
+          redirect->type = REPROC_REDIRECT_DISCARD;
+        }
       }
 
       if (r < 0) {
@@ -85,19 +91,19 @@ int redirect_init(pipe_type *parent,
       break;
 
     case REPROC_REDIRECT_HANDLE:
-      ASSERT(redirect.handle);
+      ASSERT(redirect->handle);
 
       r = 0;
 
-      *child = redirect.handle;
+      *child = redirect->handle;
       *parent = PIPE_INVALID;
 
       break;
 
     case REPROC_REDIRECT_FILE:
-      ASSERT(redirect.file);
+      ASSERT(redirect->file);
 
-      r = redirect_file(child, redirect.file);
+      r = redirect_file(child, redirect->file);
       if (r < 0) {
         break;
       }
@@ -118,9 +124,9 @@ int redirect_init(pipe_type *parent,
       break;
 
     case REPROC_REDIRECT_PATH:
-      ASSERT(redirect.path);
+      ASSERT(redirect->path);
 
-      r = redirect_path(child, stream, redirect.path);
+      r = redirect_path(child, stream, redirect->path);
       if (r < 0) {
         break;
       }
